@@ -229,6 +229,9 @@ class C08(Property):
         return not case.get("nomodel")
 
     def generate(self, rng, n, tier):
+        yield from G.mark_unmodelled(self, list(self._generate(rng, n, tier)))
+
+    def _generate(self, rng, n, tier):
         for _ in range(n):
             cid = G.Counter()
             depth = rng.choice([1, 2, 2, 3, 3])
@@ -255,17 +258,20 @@ class C08(Property):
             maps = [s for s in conts if s["k"] in G.MAP_KINDS]
             nops = rng.choice([1, 2, 3, 5, 8, 12, 16, 20])
             ops = []
+            flat = bool(case.get("nomodel")) or rng.random() < 0.04
             for _ in range(nops):
                 o = {"t": rng.randint(0, 7)}
                 # the executor picks the op matching the target's kind; the arguments are shaped for one of the
                 # schema's sequences / mappings (the same one is often hit because trees are small)
                 if seqs:
                     sq = rng.choice(seqs)
-                    o["s"] = G.gen_seq_op(rng, sq["subs"][0], valid=not hostile)
+                    o["s"] = G.gen_seq_op(rng, sq["subs"][0], valid=not hostile, seq=sq if flat else None)
                 if maps:
-                    o["m"] = G.gen_map_op(rng, rng.choice(maps), valid=not hostile)
+                    o["m"] = G.gen_map_op(rng, rng.choice(maps), valid=not hostile, flat=flat)
                 ops.append(o)
             case["ops"] = ops
+            if G.has_flat(case):
+                case["nomodel"] = True
             yield case
 
     def _run(self, case):
@@ -300,7 +306,7 @@ class C08(Property):
     def tags(self, case, obs):
         if any("view_raises" in st["view"] for st in obs["steps"]):
             return ["view-raises"]
-        t = ["root=" + case["schema"]["k"], "route=" + case["init"]["route"], "ops=%d" % min(20, len(case["ops"]))]
+        t = ["model=" + ("oracle-only" if case.get("nomodel") else "compared"), "root=" + case["schema"]["k"], "route=" + case["init"]["route"], "ops=%d" % min(20, len(case["ops"]))]
         steps = obs["steps"]
         t.append("maxsize=%d" % min(30, max(len(s["view"]["els"]) for s in steps)))
         t.append("maxdepth=%d" % max(len(r[1]) for s in steps for r in s["view"]["els"]))
